@@ -236,8 +236,8 @@ def run(prop, tier, seed, t0):
     bins, notes, failed = plan.bins_for(cfgs, ('rel', 'chk') if tier == 'thorough' else ('rel',))
     if failed:
         return plan.fail_build(prop, failed)
-    size_ = 600 if tier == 'quick' else 20000
-    nt = 8 if tier == 'quick' else 32
+    size_ = 600 if tier == 'quick' else 160000
+    nt = 8 if tier == 'quick' else 128
     tasks = plan.spread_tasks('vlib.props.c17', 'task', prop, seed, size_, plan.plain(bins), ntasks=nt)
     m = core.run_tasks(tasks)
     return core.finish(prop, tier, seed, t0, m,
